@@ -204,14 +204,14 @@ class C08Monitor(histrun.Monitor):
             if any(mo["status"] != 200 for nm, mo in o["members"].items() if nm in o.get("listed", {})):
                 continue
             fp = common.h(sorted((nm, mo["sha"]) for nm, mo in o["members"].items() if mo["status"] == 200))
-            meta = common.h(col.kind, sorted(col.props.items()), id(col))
+            meta = common.h(col.kind, sorted(col.props.items()), col.inc)
             tags = {k: o["tags"].get(k) for k in self.TAGS}
             res.count("tag_observations")
             for k, t in tags.items():
                 if t is None:
                     self.viol(w, f"{where}/tag-missing/{X.q(k)}", f"{p}: PROPFIND does not return {k}")
                     continue
-                key = (p, id(col), k)
+                key = (p, col.inc, k)
                 bt = self.by_tag.setdefault(key, {})
                 if t in bt and bt[t] != fp:
                     self.viol(w, f"{where}/same-tag-different-contents/{X.q(k)}", f"{p}: {k}={t!r} observed for two different contents")
@@ -227,7 +227,7 @@ class C08Monitor(histrun.Monitor):
                 self.viol(w, f"{where}/tag-views-disagree", f"{p}: tag views disagree: {tags!r}")
             pv = self.prev.get(p)
             d = self.steps_since.get(p, {})
-            if pv is not None and pv[3] == id(col):
+            if pv is not None and pv[3] == col.inc:
                 if pv[0] == fp and pv[1] == meta:
                     if d.get("writes_here", 0) == 0:
                         res.count("unchanged_intervals")
@@ -243,7 +243,7 @@ class C08Monitor(histrun.Monitor):
                         for k in self.TAGS:
                             if pv[2].get(k) is not None and pv[2].get(k) == tags.get(k):
                                 self.viol(w, f"{where}/contents-changed-tag-unchanged/{X.q(k)}", f"{p}: contents changed but {k} stayed {tags.get(k)!r}")
-            self.prev[p] = (fp, meta, tags, id(col))
+            self.prev[p] = (fp, meta, tags, col.inc)
             self.steps_since[p] = {"reads": 0, "refused": 0, "other": 0, "writes_here": 0}
             res.seen(where, p, fp, meta)
 
@@ -255,7 +255,7 @@ class C08Monitor(histrun.Monitor):
 class C07Monitor(histrun.Monitor):
     def __init__(self, res, cfg):
         super().__init__(res, cfg)
-        self.snaps = {}   # (col path, id(col)) -> list of (token, {name: etag})
+        self.snaps = {}   # (col path, col.inc) -> list of (token, {name: etag})
         self.rng = random.Random(cfg["seed"] ^ 0xC07)
         self.foreign_pool = []
 
@@ -273,7 +273,7 @@ class C07Monitor(histrun.Monitor):
             if tok is None:
                 self.viol(w, f"{where}/no-sync-token", f"{p}: PROPFIND returns no sync-token")
                 continue
-            key = (p, id(col))
+            key = (p, col.inc)
             hist = self.snaps.setdefault(key, [])
             # blob / commit ids etc. become foreign-token material for other collections
             for e in cur.values():
@@ -416,7 +416,7 @@ def git_blob_id(data):
 class C09Monitor(histrun.Monitor):
     def __init__(self, res, cfg):
         super().__init__(res, cfg)
-        self.heads = {}    # (path, id(col)) -> head commit id or None
+        self.heads = {}    # (path, col.inc) -> head commit id or None
         self.allheads = {}  # key -> list of all heads seen
         self.last = None
         self.pending = []  # steps since last audit
@@ -438,7 +438,7 @@ class C09Monitor(histrun.Monitor):
             if col is None or o["listing_status"] != 207:
                 continue
             where = wh(w, col)
-            key = (p, id(col))
+            key = (p, col.inc)
             fsp = w.fs_path(p)
             if not os.path.isdir(fsp):
                 self.viol(w, f"{where}/repo-missing", f"{p}: no directory {fsp}")
@@ -575,3 +575,115 @@ class C09Monitor(histrun.Monitor):
     def fp_changed(self, key, o):
         fp = common.h(sorted((nm, mo["sha"]) for nm, mo in o["members"].items() if mo["status"] == 200))
         return getattr(self, "fps", {}).get(key) != fp
+
+
+# ----------------------------------------------------------------------------
+# C06
+
+NO_UID_CONFLICT = "{urn:ietf:params:xml:ns:caldav}no-uid-conflict"
+
+
+class C06Monitor(histrun.Monitor):
+    def __init__(self, res, cfg):
+        super().__init__(res, cfg)
+        self.holders = {}    # (path, col.inc) -> {uid: name}  from served bodies at last audit
+        self.released = {}   # key -> {uid: reason}
+        self.fp = {}
+        self.pending_refusal = None
+        self.everheld = {}   # key -> set of uids ever held
+
+    def body_uid(self, body):
+        try:
+            return icl.calendar_uid(icl.parse_calendar(body))
+        except icl.ICLError:
+            return None
+
+    def on_step(self, w, s, r):
+        if r is None or s.method not in ("PUT", "POST"):
+            return
+        lp = getattr(w, "last_write", None)
+        if lp is None or lp["step"] is not s:
+            return
+        col = w.cols.get(lp["col"])
+        if col is None or col.kind != "calendar":
+            return
+        key = (col.path, col.inc)
+        where = wh(w, col)
+        uid = self.body_uid(lp["body"])
+        hold = self.holders.get(key, {})
+        conflict = bool(s.err and NO_UID_CONFLICT in s.err)
+        other = hold.get(uid) if uid is not None else None
+        real_conflict = other is not None and other != lp["name"]
+        if conflict:
+            self.res.count("conflicts_answered")
+            if real_conflict:
+                self.res.count("genuine_conflicts_refused")
+            else:
+                why = self.released.get(key, {}).get(uid)
+                ci = [u for u in hold if uid is not None and u.lower() == uid.lower() and u != uid]
+                earlier = [k for k in self.everheld if k[0] == col.path and k[1] != col.inc and uid in self.everheld[k]]
+                if why:
+                    cls = why
+                elif earlier:
+                    cls = "held-in-earlier-incarnation-of-collection"
+                elif ci:
+                    cls = "uid-differs-only-in-case"
+                elif other == lp["name"]:
+                    cls = "own-uid"
+                else:
+                    cls = "uid-never-held"
+                self.viol(w, f"{where}/spurious-conflict/{cls}", f"{s.method} {s.target} (UID {uid!r}) refused with no-uid-conflict although no other live member of {col.path} holds that UID "
+                          f"(holders: {hold!r}; history of that UID: {why})")
+            self.pending_refusal = (key, s)
+        elif W.World.success(s.eff):
+            if real_conflict:
+                self.res.count("conflicting_write_accepted")
+                # confirmed (or not) by the duplicate check at the audit
+            if uid is not None:
+                self.res.count("uid_writes_accepted")
+
+    def on_audit(self, w, obs, full):
+        for p, o in obs.items():
+            col = w.cols.get(p)
+            if col is None or col.kind != "calendar" or o["listing_status"] != 207:
+                continue
+            key = (p, col.inc)
+            where = wh(w, col)
+            by = {}
+            for nm, mo in o["members"].items():
+                if mo["status"] != 200 or not nm.endswith(".ics"):
+                    continue
+                uid = self.body_uid(mo["body"])
+                if uid is not None:
+                    by.setdefault(uid, []).append(nm)
+            self.res.count("uid_audits")
+            for uid, ns in by.items():
+                if len(ns) > 1:
+                    self.viol(w, f"{where}/duplicate-live-uid", f"{p}: UID {uid!r} is carried by {sorted(ns)!r}")
+            new = {u: ns[0] for u, ns in by.items()}
+            old = self.holders.get(key, {})
+            rel = self.released.setdefault(key, {})
+            for u, n in old.items():
+                if u not in new:
+                    if n in o["members"] and o["members"][n]["status"] == 200:
+                        rel[u] = "stale-after-uid-change"
+                        self.res.count("uid_released_by_change")
+                    else:
+                        rel[u] = "stale-after-delete"
+                        self.res.count("uid_released_by_delete")
+                elif new[u] != n:
+                    rel[u] = "stale-after-move"
+            for u in new:
+                if u in rel:
+                    self.res.count("uid_reused")
+                    del rel[u]
+            self.holders[key] = new
+            self.everheld.setdefault(key, set()).update(new)
+            fp = common.h(sorted((nm, mo["sha"]) for nm, mo in o["members"].items() if mo["status"] == 200))
+            pr = self.pending_refusal
+            if pr is not None and pr[0] == key:
+                if self.fp.get(key) is not None and self.fp[key] != fp:
+                    self.viol(w, f"{where}/refused-write-changed-state", f"{p}: a write refused with no-uid-conflict changed the collection contents")
+                self.pending_refusal = None
+            self.fp[key] = fp
+            self.res.seen(where, sorted(new.items()))
